@@ -451,27 +451,75 @@ func returnsSessionRead(s *Sem, g *ssa.Function) bool {
 
 func c03Builder(r *Report, s *Sem, R6 string) {
 	p := r.P
+	// the function that ServerBuilder.Build (or what it calls) installs as ServerConfig.Authenticate: a function literal,
+	// the literal returned by a maker function, or a method value
 	var closure *ssa.Function
-	var maker *ssa.Function
-	for _, fn := range p.LimeFuncs() {
-		if fn.Parent() != nil || fn.Signature.Results().Len() != 1 {
-			continue
+	build := p.Method("ServerBuilder", "Build")
+	authF := p.Field("ServerConfig", "Authenticate")
+	installed := false
+	var resolve func(v ssa.Value, d int) *ssa.Function
+	resolve = func(v ssa.Value, d int) *ssa.Function {
+		if d > 4 {
+			return nil
 		}
-		if sigString(fn.Signature.Results().At(0).Type()) != authSig || fn.Signature.Recv() != nil {
-			continue
+		for _, l := range leaves(v) {
+			l = stripConv(l)
+			switch x := l.(type) {
+			case *ssa.MakeClosure:
+				f := x.Fn.(*ssa.Function)
+				if f.Synthetic != "" {
+					// bound method value: the wrapper's only static callee
+					var tgt *ssa.Function
+					eachCall(f, func(c ssa.CallInstruction) {
+						if g := staticCallee(c); g != nil {
+							tgt = g
+						}
+					})
+					return tgt
+				}
+				return f
+			case *ssa.Function:
+				return x
+			case *ssa.Call:
+				if g := x.Call.StaticCallee(); g != nil && g.Pkg == p.Lime && len(g.Blocks) > 0 {
+					for _, rl := range returnLeaves(g, 0) {
+						if f := resolve(rl.v, d+1); f != nil {
+							return f
+						}
+					}
+				}
+			}
 		}
-		for _, rl := range returnLeaves(fn, 0) {
-			if mc, ok := stripConv(rl.v).(*ssa.MakeClosure); ok {
-				closure, maker = mc.Fn.(*ssa.Function), fn
+		return nil
+	}
+	if build != nil && authF != nil {
+		for f := range p.reachable(build) {
+			if f.Pkg != p.Lime {
+				continue
+			}
+			for _, st := range fieldStores([]*ssa.Function{f}, authF) {
+				if g := resolve(st.Val, 0); g != nil && sigString(types.NewSignatureType(nil, nil, nil, g.Signature.Params(), g.Signature.Results(), false)) == authSig {
+					closure = g
+					installed = true
+				}
 			}
 		}
 	}
 	if closure == nil {
-		r.Undecided(R6, "anchor-unresolved:builder authenticator", "-", "no package function returns an authentication closure")
+		r.Undecided(R6, "anchor-unresolved:builder authenticator", "-", "ServerBuilder.Build installs no analysable authentication function")
 		return
 	}
 	base := "func " + fnName(closure)
-	identityParam := closure.Params[1]
+	var identityParam *ssa.Parameter
+	for _, pr := range closure.Params {
+		if n := namedOf(pr.Type()); n != nil && n.Obj().Name() == "Identity" {
+			identityParam = pr
+		}
+	}
+	if identityParam == nil {
+		r.Undecided(R6, base+" / identity parameter", p.pos(closure.Pos()), "not found")
+		return
+	}
 	knownCtor := func(f *ssa.Function) (known bool, isCtor bool) {
 		// a function returning &AuthenticationResult{Role: const}
 		if f == nil || f.Pkg != p.Lime || f.Signature.Params().Len() != 0 {
@@ -573,17 +621,6 @@ func c03Builder(r *Report, s *Sem, R6 string) {
 		r.Check(R6, base+" / exit via user callback "+cbType, pos, ok, fmt.Sprintf("arm %s, callback non-nil guarded=%v; the callback for a scheme must run only on that scheme's credential type and only when configured", arm, nonNil))
 	}
 	r.Check(R6, base+" / exits inventoried", p.pos(closure.Pos()), n >= 6, fmt.Sprintf("%d exits", n))
-	// Build installs it
-	build := p.Method("ServerBuilder", "Build")
-	authF := p.Field("ServerConfig", "Authenticate")
-	installed := false
-	if build != nil && authF != nil {
-		for _, st := range fieldStores([]*ssa.Function{build}, authF) {
-			if call, _ := callOf(st.Val); call != nil && call.Call.StaticCallee() == maker {
-				installed = true
-			}
-		}
-	}
 	r.Check(R6, "func (*ServerBuilder).Build / installs the builder authenticator", "-", installed, "config.Authenticate must be the closure analysed above")
 }
 
@@ -591,6 +628,18 @@ func sameCaptured(a, b ssa.Value) bool {
 	a, b = stripConv(a), stripConv(b)
 	if a == b {
 		return true
+	}
+	// the same field of the same receiver / captured struct
+	if pa, pb := pathOf(a), pathOf(b); pa.Root == pb.Root && len(pa.Fields) > 0 && len(pa.Fields) == len(pb.Fields) {
+		same := true
+		for i := range pa.Fields {
+			if pa.Fields[i] != pb.Fields[i] {
+				same = false
+			}
+		}
+		if same {
+			return true
+		}
 	}
 	ra, rb := pathOf(a).Root, pathOf(b).Root
 	fa, oka := ra.(*ssa.FreeVar)
